@@ -34,6 +34,15 @@ class Top:
         return f"Top({self.why})"
 
 
+class NaNTop(Top):
+    """np.nan: propagates through arithmetic like an unknown, recognised by np.isnan (cache sentinels)."""
+
+    __slots__ = ()
+
+
+NAN = NaNTop("nan")
+
+
 class PEError(AnalysisError):
     pass
 
